@@ -2,10 +2,11 @@
 # Re-run the quick check of the owning property against every kept seeded change, in a scratch
 # worktree of /repo and a scratch copy of the harness (neither /repo nor /verif/evidence is touched).
 # usage: tools/regress_seeds.sh [seed-dir-name ...]      (default: all of /verif/seeded)
-# writes tools/regress_seeds_results.txt (one line per seed: caught / MISSED / patch does not apply)
+# writes tools/regress_seeds_results.txt (one line per seed: caught / MISSED / patch does not apply);
+# several instances can run side by side with different VERIF_SCRATCH and REGRESS_OUT
 set -u
 SCR=${VERIF_SCRATCH:-/tmp/verif_regress}
-OUT=/verif/tools/regress_seeds_results.txt
+OUT=${REGRESS_OUT:-/verif/tools/regress_seeds_results.txt}
 rm -rf "$SCR"; mkdir -p "$SCR"
 git -C /repo worktree prune
 git -C /repo worktree add -q --detach "$SCR/repo" HEAD || exit 9
